@@ -1478,15 +1478,15 @@ def equal(a, b):
 
 
 def setxor1d(a, b):
-    """sorted complement of index list b in a = arange(D) (assumed contract of jnp.setxor1d)"""
+    """sorted complement of index list b in a = arange(D) (assumed contract of jnp.setxor1d): the other part of the
+    declared partition of the sort"""
     W.count("setxor1d")
-    if isinstance(a, IndexArr) and a.kind == "range" and isinstance(b, IndexArr):
-        if b.kind == "parts":
-            n = b.of
-            rest = [k for k in range(n) if k not in b.parts]
-            r = IndexArr("parts", parts=rest, size=None)
-            r.of = n
-            return r
+    if isinstance(a, IndexArr) and a.kind == "range" and isinstance(b, IndexArr) and b.kind == "map" and b.name in W.ctx.part_of:
+        srt, pos = W.ctx.part_of[b.name]
+        parts = W.ctx.partitions[srt]
+        if len(parts) == 2:
+            nm, ps = parts[1 - pos]
+            return index_map(nm, ps)
     raise ShimUnsupported("setxor1d pattern")
 
 
